@@ -356,6 +356,8 @@ SplitStmts(d) ==
               : o \in Pick(LeadOps), e \in ExprChoice, e2 \in ExprChoice}
     \cup {[st |-> "IsAssignation", items |-> <<V3, L(" = ", 3)>> \o e \o <<NLc>> \o Tabs(d + 1) \o <<L("* ", 2)>> \o e2 \o <<L(";", 1)>>]
               : e \in Pick(MulLeft), e2 \in Pick(MulLeft)}
+    (* a loop with an empty body: the ";" on its own line, one tab deeper; ONE statement for the engine, no scope is opened *)
+    \cup {[st |-> "IsControlStatement", items |-> <<L("while (", 7)>> \o c \o <<L(")", 1), NLc>> \o Tabs(d + 1) \o <<L(";", 1)>>] : c \in CondChoice}
     \cup {[st |-> "IsExpressionStatement", items |-> <<L("return (", 8), F4, L("(", 1), V1, L(",", 1), NLc>> \o Tabs(d + 2) \o e \o <<L("));", 3)>>]
               : e \in ExprChoice}
 SimpleSplit ==
